@@ -35,11 +35,17 @@ let show_fsp (h : fsp_hdr) : string =
       hex_of_z h.fsp_tempramexit; hex_of_z h.fsp_siliconinit; hex_of_z h.fsp_multiphase;
       hex_of_z h.fsp_extrev ]
 
+let show_sacm (s : sacm) : string =
+  "ok " ^ hex_of_z s.sacm_ver ^ " " ^ hex_of_z s.sacm_hdr_size ^ " "
+  ^ hex_of_z (z_of_int (List.length s.sacm_user)) ^ " " ^ hex_of_bytes s.sacm_user
+
 let eval fn args : string option =
   match fn, args with
   | "mc", [b] -> Some (obs_outcome show_mc (mc_parse (bytes_of_hex b)))
   | "me", [b] -> Some (obs_outcome show_me (me_parse (bytes_of_hex b)))
   | "fsp", [b] -> Some (obs_outcome show_fsp (fsp_parse (bytes_of_hex b)))
+  | "sacm", [b] -> Some (obs_outcome show_sacm (sacm_parse (bytes_of_hex b)))
+  | "sacmsize", [b] -> Some (obs_outcome (fun v -> "ok " ^ hex_of_z v) (sacm_parse_size (bytes_of_hex b)))
   | "cls_fmap", [b] -> Some (class_obs (c20_fmap (bytes_of_hex b)))
   | "cls_fit_table", [b] -> Some (class_obs (c20_fit_table (bytes_of_hex b)))
   | "cls_fit_entries", [b] -> Some (class_obs (c20_fit_entries (bytes_of_hex b)))
